@@ -40,6 +40,14 @@ def _reach(ctx):
 
 
 def _is_set_typed(ctx, fn, e, depth=0):
+    if isinstance(e, ast.Name) and depth < 4:
+        # a local is what its reaching definition at this point makes it (the same name may hold a list first and a set later)
+        try:
+            d0 = reaching_def(ctx, fn, e.id, e) if ctx.cfg(fn).has_node(e) else None
+        except Exception:
+            d0 = None
+        if d0 is not None and d0 is not e:
+            return _is_set_typed(ctx, fn, d0, depth + 1)
     env = ctx.types.env(fn)
     ts = ctx.types.type_of(e, env)
     if any(t[0] == 'set' for t in ts):
